@@ -21,7 +21,8 @@ ASSUMPTIONS = [
 
 def gen(rng, tier, no, wide=False):
     case = C.gen_with(rng, C.every_rank_has_device, launch_rate=rng.choice([0.45, 0.6]), nsteps=rng.choice([0, 1, 2]),
-                      max_depth=rng.choice([2, 3, 4]), top_ops=rng.choice([2, 3, 4]))
+                      max_depth=rng.choice([2, 3, 4]), top_ops=rng.choice([2, 3, 4]),
+                      **({"nranks": rng.choice([2, 3]), "filler": -90} if rng.random() < 0.1 else {}))
     if rng.random() < 0.65:
         # small vocabulary so that patterns repeat
         kn = rng.sample(["k_a", "k_b", "ncclKernel_x"], rng.choice([1, 2]))
